@@ -2,6 +2,7 @@
 
 from __future__ import annotations
 
+import json
 import os
 
 import numpy as np
@@ -38,14 +39,23 @@ def gen_cases(seed, tier):
     cases = mc.gen_cases(ID, seed, tier, n_quick=24, n_thorough=400, ex_quick=40, ex_thorough=150, steps=8)
     i = len(cases)
     quick = tier == "quick"
+    variants = {
+        "zuko": [{"flow_class": "MAF", "transforms": 2, "hidden_features": [8, 8]}, {"flow_class": "NSF", "transforms": 1, "hidden_features": [8]},
+                 {"flow_class": "MAF", "transforms": 3, "hidden_features": [6, 6, 6]}],
+        "flowjax": [{"flow_layers": 2, "nn_width": 8}, {"flow_layers": 2, "nn_width": 8, "nn_depth": 2},
+                    {"flow_type": "coupling_flow", "flow_layers": 2, "nn_width": 8, "nn_depth": 3}, {"flow_layers": 3, "nn_width": 6, "nn_depth": 3}],
+    }
+    k = 0
     for backend in ("zuko", "flowjax"):
-        for trained in (False, True):
-            for dtype in ((None,) if quick else (None, "float32", "float64")):
-                for bt in (("logit",) if quick else ("logit", "probit", None)):
-                    ss = stream_seeds(seed, ID, 10000 + i)
-                    cases.append({"run_index": 10000 + i, "flow_case": True, "backend": backend, "trained": trained, "dtype": dtype,
-                                  "bounded_transform": bt, "seed": ss["scenario"] % (1 << 30), "tier": tier})
-                    i += 1
+        for vi, var in enumerate(variants[backend]):
+            for trained in ((bool(vi % 2),) if quick else (False, True)):
+                for dtype in ((None,) if quick else (None, "float32", "float64")):
+                    for bt in ((("logit", "probit", None)[vi % 3],) if quick else ("logit", "probit", None)):
+                        ss = stream_seeds(seed, ID, 10000 + i)
+                        cases.insert(k, {"run_index": 10000 + i, "flow_case": True, "backend": backend, "variant": var, "trained": trained, "dtype": dtype,
+                                         "bounded_transform": bt, "seed": ss["scenario"] % (1 << 30), "tier": tier})
+                        i += 1
+                        k += 1
     return cases
 
 
@@ -63,6 +73,10 @@ def run_flow_case(case, workdir):
     fl, fit = FLOWS[case["backend"]]
     fl = dict(fl)
     backend = fl.pop("backend")
+    if case.get("variant"):
+        for k_ in ("flow_class", "transforms", "hidden_features", "flow_layers", "nn_width", "nn_depth", "flow_type"):
+            fl.pop(k_, None)
+        fl.update(case["variant"])
     if "key_seed" in fl:
         import jax
 
@@ -85,7 +99,8 @@ def run_flow_case(case, workdir):
         A.save_flow(f)
         A.save_config(f, include_sampler_config=False)
     V = []
-    w = {"kind": "flow", "backend": backend, "trained": case["trained"], "dtype": case["dtype"], "bounded_transform": case["bounded_transform"]}
+    w = {"kind": "flow", "backend": backend, "trained": case["trained"], "dtype": case["dtype"], "bounded_transform": case["bounded_transform"],
+         "variant": case.get("variant")}
     try:
         B = Aspire.resume_from_file(path, log_likelihood=SimLikelihood(m), log_prior=SimPrior(m))
         lp1 = to_np(B.flow.log_prob(probe))
@@ -95,7 +110,7 @@ def run_flow_case(case, workdir):
         V.append(violation("c13.flow_reload_raised", f"reloading a saved {backend} flow (options {sorted(fl)}) raised {type(e).__name__}: {e}",
                            {**w, "error_type": type(e).__name__}, tb=traceback.format_exc()[-1500:]))
         return {"violations": V, "evaluations": 1, "events": 2, "probes": {}, "faults_fired": {"restart": 1},
-                "nontrivial_keys": [["flow", backend, case["trained"], case["dtype"], case["bounded_transform"]]],
+                "nontrivial_keys": [["flow", backend, case["trained"], case["dtype"], case["bounded_transform"], json.dumps(case.get("variant"), sort_keys=True)]],
                 "digest": digest_of([lp0, [v["oracle"] for v in V]]), "sample": jsonable({"flow_case": w})}
     bits = 32 if "32" in str(getattr(A.flow, "dtype", lp0.dtype)) or "32" in str(lp0.dtype) else 64
     tol = dict(rtol=1e-4, atol=1e-4) if bits == 32 else dict(rtol=1e-9, atol=1e-9)
@@ -105,7 +120,7 @@ def run_flow_case(case, workdir):
     if str(lp0.dtype) != str(lp1.dtype):
         V.append(violation("c13.dtype", f"{backend} flow: log_prob dtype {lp0.dtype} became {lp1.dtype} after reload", w))
     return {"violations": V, "evaluations": 1, "events": 2, "probes": {"flow_roundtrips": 1}, "faults_fired": {"restart": 1},
-            "nontrivial_keys": [["flow", backend, case["trained"], case["dtype"], case["bounded_transform"]]],
+            "nontrivial_keys": [["flow", backend, case["trained"], case["dtype"], case["bounded_transform"], json.dumps(case.get("variant"), sort_keys=True)]],
             "digest": digest_of([lp0, [v["oracle"] for v in V]]), "sample": jsonable({"flow_case": w})}
 
 
